@@ -288,16 +288,24 @@ func (c *columnKey) Apply(chunk commit.Chunk, r *commit.Reader) {
 		case commit.Put:
 			value := string(r.Bytes())
 
+			// A row that changes its key gives up the old one
+			c.lock.Lock()
+			if fill.Contains(uint32(offset)) && data[offset] != value {
+				if at, ok := c.seek[data[offset]]; ok && at == uint32(r.Offset) {
+					delete(c.seek, data[offset])
+				}
+			}
 			fill[offset>>6] |= 1 << (offset & 0x3f)
 			data[offset] = value
-			c.lock.Lock()
 			c.seek[value] = uint32(r.Offset)
 			c.lock.Unlock()
 
 		case commit.Delete:
 			fill.Remove(uint32(offset))
 			c.lock.Lock()
-			delete(c.seek, string(data[offset]))
+			if at, ok := c.seek[data[offset]]; ok && at == uint32(r.Offset) {
+				delete(c.seek, data[offset])
+			}
 			c.lock.Unlock()
 		}
 	}
